@@ -349,7 +349,7 @@ func (g *histGen) op() {
 		} else {
 			b.addn(uint64(r.Pick(0, 0, 1, 2, 3)))
 		}
-		b.addn(uint64(r.Intn(3)))
+		b.addn(uint64(g.cnt % 250)) // scalar id: distinct within a history, as real scalars are
 	case 32:
 		if r.Bool() {
 			b.add("finalize")
@@ -530,9 +530,9 @@ func (g *histGen) scenario() {
 		if r.Chance(15) {
 			gf = r.Pick(1, 2, 3)
 		}
-		g.emit(fmt.Sprintf("blind %s 1 %d %s %d %s 1 1 1 1 %d %d", b01(last), i, iss, len(outs), strings.Join(outs, " "), gf, r.Intn(3)))
+		g.emit(fmt.Sprintf("blind %s 1 %d %s %d %s 1 1 1 1 %d %d", b01(last), i, iss, len(outs), strings.Join(outs, " "), gf, g.cnt%250))
 		if !last && r.Chance(60) {
-			g.emit(fmt.Sprintf("blind 1 1 %d 0 1 %d 0 1 1 1 1 0 %d", i, first+nb-1, r.Intn(3)))
+			g.emit(fmt.Sprintf("blind 1 1 %d 0 1 %d 0 1 1 1 1 0 %d", i, first+nb-1, g.cnt%250))
 		}
 		if r.Chance(50) {
 			g.emit(fmt.Sprintf("sign %d 0 1 k0 n n", i))
